@@ -1138,7 +1138,7 @@ impl Check for C10 {
         vec![
             "the exact walk is only applied in worlds without dead-end vertices; elsewhere loop turns that expand nothing are invisible and only the outcome clauses are checked".into(),
             "the solution-size limit is walked with a reference model of the search tree (the distinct vertices reached through admitted edges so far; agreement with the size every returned search reports is counted in reach): it must fire at the first loop turn that finds the tree larger than the limit, nothing may be expanded afterwards - which is 'never exceeds the limit by more than one vertex's out-degree' - and it may not fire earlier; sub-searches of k-shortest-paths are not walked under size limits".into(),
-            "k-shortest-path sub-searches (family ksp: single-via, two sub-searches) are only walked at their start and turn-0 check reads: each sub-search must measure its budget from its own start".into(),
+            "k-shortest-path sub-searches: single-via (family ksp) - the forward and the reverse search are both walked under runtime / iteration / combined limits, the reverse walk only in worlds where every vertex is entered by some edge; Yen's (family yens) - every sub-search is walked under every limit kind, its history split at the cost-estimate calls; one constellation is undecidable and counted, not judged (yens_walk_ambiguous_tail)".into(),
             "iteration and size clauses contain no clock or schedule: that part is an input sweep executed inside the simulator".into(),
         ]
     }
